@@ -11,13 +11,6 @@ import (
 	"strconv"
 )
 
-func verifB2I(b bool) int64 {
-	if b {
-		return 1
-	}
-	return 0
-}
-
 // ---------------- K1: lengths and strings ----------------
 
 func VerifC03Length() {
